@@ -1,7 +1,7 @@
 """D31: _SR.from_dataset(copy=True) retypes nested items of the caller's dataset."""
 import sys
 sys.path.insert(0, sys.argv[1] + '/src')
-sys.path.insert(0, '/verif/harness'); import stub_modules as stubmods; stubmods.install()
+sys.path.insert(0, '/root/scratch/probe'); import stubmods; stubmods.install()
 import pydicom
 from pydicom.dataset import Dataset
 from highdicom.sr import Comprehensive3DSR, ComprehensiveSR, EnhancedSR
